@@ -55,13 +55,17 @@ var MoreMedias = []string{"application/x-t0", "application/x-t1", "application/x
 	"application/x-t8", "application/x-t9", "application/x-t10", "application/x-t11", "application/x-t12", "application/x-t13", "application/x-t14", "application/x-t15"}
 
 // Scale turns generator options into one of the "large" table shapes (counts beyond what small tables reach):
-// 0 long templates (10-18, 10-40 or 10-70 route segments, many variables), 1 many WebServices (33-40), 2 long Consumes / Produces
+// 0 long templates (10-18, 24-40 or 24-70 route segments, many variables), 1 many WebServices (33-40), 2 long Consumes / Produces
 // lists (up to 12 entries), 3 many If-conditions per route (up to 10), 4 many routes in one service (up to 130).
 func Scale(o *GenOpts, variant int) string {
 	switch variant % 5 {
 	case 0:
-		// route paths of 10-18, 10-40 or 10-70 segments (beyond 16, 32 and 64), many of them variables
-		o.MinPathLen, o.MaxPathLen, o.MaxRootLen = 10, []int{18, 40, 70}[(variant/5)%3], 4
+		// route paths of 10-18, 24-40 or 24-70 segments (beyond 16, 32 and 64), many of them variables
+		o.MinPathLen, o.MaxPathLen, o.MaxRootLen = 10, []int{40, 70, 18}[(variant/5)%3], 4
+		if o.MaxPathLen >= 40 {
+			o.MinPathLen = 24 // templates with 16 and more variables / literals
+			o.MaxRoutes = 10
+		}
 		o.LitSkew = (variant/5)%2 == 1
 		if o.LitSkew {
 			return "long-templates-literal-skew"
@@ -77,7 +81,7 @@ func Scale(o *GenOpts, variant int) string {
 		o.CondMax = 10
 		return "many-conditions"
 	}
-	o.MaxRoutes, o.MaxSvcs = 130, 2
+	o.MaxRoutes, o.MaxSvcs, o.MaxPathLen = 130, 2, 6
 	return "many-routes"
 }
 
@@ -229,12 +233,29 @@ func GenTable(r *core.Rand, o GenOpts) *Table {
 				}
 			}
 		}
+		manyRoutes := o.MaxRoutes >= 100
+		if manyRoutes {
+			// pool[0]: a literal path of 4-7 segments; the routes derived from it below replace any subset of its segments by
+			// variables, so that dozens of distinct templates match the same URL
+			pool[0] = make(Tmpl, r.Range(4, 7))
+			for k := range pool[0] {
+				pool[0][k] = Seg{Kind: Lit, Lit: r.Pick(Literals)}
+			}
+		}
 		poolMethod := ""
 		seen := map[string]bool{}
 		for j := 0; j < nr; j++ {
 			var p Tmpl
 			mirror := false
-			if r.Chance(1, 2) {
+			if manyRoutes && r.Chance(1, 2) {
+				p = append(Tmpl{}, pool[0]...)
+				g.vars = i*100 + 50 + j*7
+				for k := range p {
+					if r.Chance(1, 2) {
+						p[k] = Seg{Kind: Var, Name: g.name()}
+					}
+				}
+			} else if r.Chance(1, 2) {
 				p = pool[r.Intn(len(pool))]
 			} else {
 				g.vars = i*100 + 50 + j*5
@@ -410,11 +431,17 @@ func instantiate(r *core.Rand, full Tmpl) []string {
 			}
 		case Wild:
 			n := r.Range(1, 3)
+			short := false
 			if r.Chance(1, 25) {
-				n = []int{14, 30, 62, 64, 130}[r.Intn(5)] // deep paths below the tail wildcard (totals around 16, 32, 64 and beyond)
+				n = []int{14, 22, 30, 38, 62, 64, 130}[r.Intn(7)] // deep paths below the tail wildcard (totals around 16, 32, 64 and beyond)
+				short = r.Chance(3, 4)                            // mostly short segments: joined lengths around 64, 128, 256
 			}
 			for i := 0; i < n; i++ {
-				toks = append(toks, r.Pick(VarVals))
+				v := r.Pick(VarVals)
+				for short && len(v) > 8 {
+					v = r.Pick(VarVals)
+				}
+				toks = append(toks, v)
 			}
 			continue
 		}
